@@ -164,6 +164,15 @@ def get_offset(idx, strides):
     return sum(ii * ss for ii, ss in zip(idx, strides))
 
 
+def _get_item(value, index):
+    """value[index] also for nested python sequences (no tuple indexing)"""
+    if isinstance(index, tuple) and isinstance(value, (list, tuple)):
+        for ii in index:
+            value = value[ii]
+        return value
+    return value[index]
+
+
 def bound_check(index, shape):
     for ii, ss in zip(index, shape):
         if ii < 0 or ii >= ss:
@@ -399,7 +408,9 @@ class Array(metaclass=MetaArray):
                 offsets = np.empty(shape, dtype="int64")
                 offset += items * 8
                 for idx in iter_index(shape, order):
-                    extra[idx] = cls._itemtype._inspect_args(value[idx])
+                    extra[idx] = cls._itemtype._inspect_args(
+                        _get_item(value, idx)
+                    )
                     offsets[idx] = offset
                     offset += extra[idx].size
                 size = _to_slot_size(offset)
@@ -506,13 +517,11 @@ class Array(metaclass=MetaArray):
                             info.extra.get(idx),
                         )
         else:  # there is a value for initialization
-            if not hasattr(value, "shape"):  # not nplike
-                value = np.asarray(value, dtype=object)
             if cls._is_static_type:
                 ioffset = offset + cls._data_offset
                 for idx in iter_index(info.shape, cls._order):
                     cls._itemtype._to_buffer(
-                        buffer, ioffset, value[idx], info=None
+                        buffer, ioffset, _get_item(value, idx), info=None
                     )
                     ioffset += cls._itemtype._size
             else:
@@ -520,7 +529,7 @@ class Array(metaclass=MetaArray):
                     cls._itemtype._to_buffer(
                         buffer,
                         offset + info.offsets[idx],
-                        value[idx],
+                        _get_item(value, idx),
                         info.extra.get(idx),
                     )
 
